@@ -354,3 +354,193 @@ def constraint_init_obligations(timeout_ms=10000):
     for i_, ((kind, text), (st_, line)) in enumerate(sorted(seen.items())):
         add('%s#%d' % (kind, i_), kind, st_, text, line)
     return obs
+
+
+# ------------------------------------------------------------- dot(x, y)
+# Documented (modeling.rst): "If v is a variable or affine function and u is
+# a 'd' matrix of size (len(v), 1), then dot(u, v) and dot(v, u) are
+# equivalent to u.trans() * v.  If u and v are dense matrices, then dot is
+# equivalent to blas.dot."  Property C11: combinations whose dimensions do
+# not match are refused with an exception instead of producing a function.
+# Contract: dot returns blas.dot(x, y) iff both are dense matrices;
+# u.trans() * v iff u is a dense matrix of size (len(v), 1) and v a variable
+# or an affine function (either order); TypeError otherwise.
+class DArg:
+    abs_object = True
+    KINDS = ('dmatrix', 'variable', 'function', 'other')
+
+    def __init__(self, tag):
+        self.tag = tag
+        self.kind = z3.Int('kind of ' + tag)
+        self.rows, self.cols = z3.Int('rows of ' + tag), z3.Int(
+            'columns of ' + tag)
+        self.ln = z3.Int('len(' + tag + ')')
+        self.affine = z3.Bool(tag + ' is affine')
+
+    def is_(self, k):
+        return self.kind == self.KINDS.index(k)
+
+    def abs_getattr(self, ex, st, attr, n):
+        if attr == 'size':
+            return (I(self.rows), I(self.cols))
+        return core.NOTFOUND
+
+    def abs_method(self, ex, st, name, args, kwargs, n):
+        if name == '_isaffine':
+            d = ex.decide(st, self.is_('function'))
+            if d is None:
+                raise NeedFork(self.is_('function'))
+            if not d:
+                raise PyRaise('AttributeError', name)
+            return B(self.affine)
+        if name == 'trans' and not args:
+            return DTrans(self)
+        raise Unsupported('method %s of an argument of dot' % name)
+
+
+class DTrans:
+    abs_object = True
+
+    def __init__(self, of):
+        self.of = of
+
+    def abs_binop(self, ex, st, op, b, n):
+        if isinstance(op, ast.Mult) and isinstance(b, DArg):
+            return DProd(self.of, b)
+        raise Unsupported('operation on a transposed matrix')
+
+
+class DProd:
+    abs_object = True
+
+    def __init__(self, u, v):
+        self.u, self.v = u, v
+
+
+class DType:
+    abs_object = True
+
+    def __init__(self, a):
+        self.a = a
+
+    def abs_is(self, ex, st, o):
+        if isinstance(o, Ext) and o.name == 'cvxopt.modeling.variable':
+            return self.a.is_('variable')
+        if isinstance(o, Ext) and o.name == 'cvxopt.modeling._function':
+            return self.a.is_('function')
+        raise Unsupported('type test of an argument of dot')
+
+    abs_eq = abs_is
+
+
+def dot_obligations(timeout_ms=10000):
+    tree, src = driver.load_module('modeling.py')
+    obs, sink = [], []
+
+    def add(oid, kind, status, text, line=0, detail=None):
+        obs.append({'id': 'modeling.py:dot:%s:%s' % (kind, oid),
+                    'kind': kind, 'status': status, 'text': text,
+                    'line': line, 'model': None, 'detail': detail,
+                    'by': ['z3'] if status == 'proved' else []})
+    names = ('builtins.type', 'builtins.len', 'cvxopt.modeling._isdmatrix',
+             'cvxopt.blas.dot', 'cvxopt.modeling.blas.dot')
+    saved = {k_: L.ext.get(k_) for k_ in names}
+    type0, len0 = saved['builtins.type'], saved['builtins.len']
+
+    def b_type(ex_, st, args, kwargs, n):
+        if len(args) == 1 and isinstance(args[0], DArg):
+            return DType(args[0])
+        return type0(ex_, st, args, kwargs, n)
+
+    def b_len(ex_, st, args, kwargs, n):
+        if isinstance(args[0], DArg):
+            return I(args[0].ln)
+        return len0(ex_, st, args, kwargs, n)
+
+    def isd(ex_, st, args, kwargs, n):
+        if isinstance(args[0], DArg):
+            return B(args[0].is_('dmatrix'))
+        return False
+
+    def blasdot(ex_, st, args, kwargs, n):
+        return ('blas.dot', tuple(args))
+    ex = core.Executor(tree, 'cvxopt.modeling', L, {'unroll': 8})
+    x, y = DArg('x'), DArg('y')
+
+    def setup(ex_, st, fid, f_):
+        L.ext.update({'builtins.type': b_type, 'builtins.len': b_len,
+                      'cvxopt.modeling._isdmatrix': isd,
+                      'cvxopt.blas.dot': blasdot,
+                      'cvxopt.modeling.blas.dot': blasdot})
+        fr = st.frames[fid]
+        fr['x'], fr['y'] = x, y
+        fr['blas'] = Ext('cvxopt.blas')
+        fr['variable'] = Ext('cvxopt.modeling.variable')
+        fr['_function'] = Ext('cvxopt.modeling._function')
+        for a in (x, y):
+            st.pc += [a.kind >= 0, a.kind <= 3, a.rows >= 1, a.cols >= 1,
+                      a.ln >= 1]
+        st.ghost['frame_check'] = False
+    try:
+        ex.find_function('dot')
+        try:
+            outs = ex.run_function('dot', setup)
+        except Unsupported as e:
+            add('supported', 'dot-accepts', 'undecided', 'dot is inside the '
+                'supported subset', detail=str(e))
+            return obs
+    finally:
+        for k_, v_ in saved.items():
+            if v_ is None:
+                L.ext.pop(k_, None)
+            else:
+                L.ext[k_] = v_
+
+    def fits(u, v):
+        return z3.And(u.is_('dmatrix'), z3.Or(v.is_('variable'), z3.And(
+            v.is_('function'), v.affine)), u.rows == v.ln, u.cols == 1)
+    both = z3.And(x.is_('dmatrix'), y.is_('dmatrix'))
+    nret = 0
+    for o in outs:
+        pc = list(o.st.pc)
+        if o.kind == 'raise':
+            sink.append(('dot-refuses', pc, z3.And(
+                z3.BoolVal(o.val[0] == 'TypeError'),
+                z3.Not(z3.Or(both, fits(x, y), fits(y, x)))),
+                'dot(x, y) is refused only with TypeError, when it is neither '
+                'the inner product of two dense matrices nor that of a dense '
+                'column matrix of size (len(v), 1) with a variable or affine '
+                'function v (%s)' % o.val[0],
+                o.val[2] if len(o.val) > 2 else 0))
+            continue
+        nret += 1
+        v = o.val
+        if isinstance(v, tuple) and v and v[0] == 'blas.dot':
+            sink.append(('dot-accepts', pc, z3.And(both, z3.BoolVal(
+                v[1] == (x, y))), 'blas.dot(x, y) is returned only for two '
+                'dense matrices', 0))
+        elif isinstance(v, DProd):
+            sink.append(('dot-accepts', pc, fits(v.u, v.v) if {v.u, v.v} ==
+                         {x, y} else z3.BoolVal(False),
+                         'u.trans() * v is returned only if u is a dense '
+                         'matrix of size (len(v), 1) and v a variable or an '
+                         'affine function', 0))
+        else:
+            sink.append(('dot-accepts', pc, z3.BoolVal(False), 'dot returns '
+                         'blas.dot(x, y) or u.trans() * v', 0))
+    sink.append(('covered', [], z3.BoolVal(nret >= 3), 'the three ways of '
+                 'returning are reached (%d)' % nret, 0))
+    seen = {}
+    rank = {'proved': 0, 'undecided': 1, 'refuted': 2}
+    for kind, pc, goal, text, line in sink:
+        r = ex.check(pc, [z3.Not(goal)], timeout=timeout_ms)
+        st_ = 'proved' if r == z3.unsat else ('refuted' if r == z3.sat
+                                              else 'undecided')
+        if kind == 'covered' and st_ != 'proved':
+            st_ = 'undecided'
+        key = (kind, text)
+        if key not in seen or rank[st_] > rank[seen[key][0]]:
+            seen[key] = (st_, line)
+    for i_, ((kind, text), (st_, line)) in enumerate(sorted(seen.items())):
+        add('%s#%d' % (kind, i_), kind, st_, text, line)
+    return obs
